@@ -20,6 +20,7 @@ import ast
 import decimal
 import math
 import os
+import re
 import subprocess
 
 import numpy as np
@@ -29,18 +30,23 @@ from common import cz, cnat, clist, cstr, copt
 
 LEVEL = "proof"
 THEOREMS = "Props/C13.v"
-EXTRA_TARGETS = ("Gen/SasaTables.vo",)
+EXTRA_TARGETS = ("Gen/SasaTables.vo", "Gen/SasaSpiral.vo")
 EXTS = ["_geometry"]
 RULE = ("calls of md.shrake_rupley on generated systems (isolated atoms, overlapping pairs incl. the y axis, random "
         "clusters, chain fragments; 1..60 atoms on a 2^-20 nm grid, 1..5 frames) x n_sphere_points in {1,7,60,96,960} "
         "x probe in [0,0.3] x change_radii x mode in {atom,residue} x atom_indices subsets x OMP_NUM_THREADS in {1,16}; "
         "a case is non-trivial when at least one selected atom has a neighbour and at least one accessible point; "
-        "distinct by hash of the whole call")
+        "distinct by hash of the whole call; plus two-equal-sphere calls whose cap threshold sits a quarter band from an ideal "
+        "spiral y (+-y) or anywhere (+-x, +-z, random direction), n_sphere_points in {7,60,96,960}, compared with the exact "
+        "buried-point count on a float64 golden spiral; plus the argument forms of sasa.py (atom_indices as list/ndarray/"
+        "numpy ints/duplicates/reversed/tuple/negative/boolean, invalid mode strings, get_mapping, float n_sphere_points)")
 TRUSTED = ["harness/shims/sasa_points.cpp (prints the float32 sphere points of the repository's generate_sphere_points)",
            "harness/impl/sasa_impl.py (builds Topology/Trajectory, calls md.shrake_rupley)",
            "harness/props/C13.py: generator, conversion of float32 areas to integer intervals, guard band, the inversion "
            "of the carry-over that decides whether the as-found kernel explains a multi-frame result",
-           "translator of _ATOMIC_RADII (Python ast) into coq/Gen/SasaTables.v"]
+           "translator of _ATOMIC_RADII (Python ast) into coq/Gen/SasaTables.v",
+           "harness/props/C13.py ideal_spiral (float64 golden spiral used as the documented point set in the API checks) and the "
+           "tolerances SPIRAL_TOL of the integer spiral specification; the constants turnC/turnS of MD.Sasa.Spiral (float64 cos/sin)"]
 ASSUMPTIONS = ["float32 rounding inside asa_frame is not modelled: sphere points within 1e-5 nm of a neighbour's surface are "
                "excluded from exact comparison (counted in the evidence); areas are compared under relative bound 2e-5",
                "coordinates lie on a 2^-20 nm grid with |x| < 4 nm; sphere points and radii are rounded to 2^-20 (relative) "
@@ -115,6 +121,10 @@ def translate(ctx):
     _TABLE["t"] = tbl
     ctx.write_gen("Gen/SasaTables.v", gen_tables_text(tbl))
     ctx.notes.setdefault("coverage_extra", {})["radii_table_entries"] = len(tbl)
+    # the point sets the repository's generate_sphere_points produces (shim) against the golden-spiral specification
+    pts = sphere_points(ctx)
+    ctx.write_gen("Gen/SasaSpiral.v", gen_spiral_text(pts))
+    ctx.notes["coverage_extra"]["sphere_point_sets_checked_against_spiral_spec"] = sorted(pts)
 
 
 # ------------------------------------------------------------------------------------------ shim
@@ -694,6 +704,383 @@ def oracle_one(g, mode, o, an):
     return None
 
 
+
+# ------------------------------------------------------------------------------------------ golden spiral
+SPIRAL_TOL = {"t_y": 2, "t_norm": 4 * M, "t_turn_num": 1, "t_turn_den": 1000, "t_start": 2}
+GOLDEN_INC = math.pi * (3.0 - math.sqrt(5.0))
+GUARD_DIR = 1.0e-4         # nm; general directions: float32 phi = i*inc is off by up to ~1.1e-4 rad at i = 960
+
+
+def gen_spiral_text(pts):
+    sets = []
+    out = ["(* GENERATED on every run by harness/props/C13.py: the float32 sphere points of the repository's own",
+           "   generate_sphere_points (obtained through harness/shims/sasa_points.cpp, rounded to the unit 2^-20), for every",
+           "   n_sphere_points the correspondence uses.  Per-run obligation: each set satisfies the golden-spiral specification",
+           "   MD.Sasa.Spiral.spiral_ok (strata in y, unit sphere, golden-angle turn between consecutive points, phi_0 = 0)",
+           "   within the stated float32/grid tolerances.  A generator that lays the points out differently stops the build. *)",
+           "From Coq Require Import List ZArith Bool.", "Import ListNotations.",
+           "Require Import MD.Sasa.Model MD.Sasa.Spiral.", "Open Scope Z_scope.", "",
+           "Definition spiral_M : Z := %d." % M,
+           "Definition spiral_tolerances : spiral_tol :=",
+           "  {| t_y := %(t_y)d; t_norm := %(t_norm)d; t_turn_num := %(t_turn_num)d; t_turn_den := %(t_turn_den)d; t_start := %(t_start)d |}." % SPIRAL_TOL, ""]
+    for n in sorted(pts):
+        out.append("Definition shim_pts%d : list vec := %s." % (n, clist([coq_vec(p) for p in pts[n][1]])))
+        sets.append("(%s, shim_pts%d)" % (cnat(n), n))
+    out.append("Definition shim_point_sets : list (nat * list vec) := %s." % clist(sets))
+    out.append("Definition point_set_ok (p : nat * list vec) : bool :=")
+    out.append("  Nat.eqb (length (snd p)) (fst p) && negb (Nat.eqb (fst p) 0) && spiral_ok spiral_M spiral_tolerances (snd p).")
+    out.append("Lemma shim_points_are_golden_spiral : forallb point_set_ok shim_point_sets = true.")
+    out.append("Proof. vm_compute. reflexivity. Qed.")
+    return "\n".join(out) + "\n"
+
+
+def ideal_spiral(n):
+    i = np.arange(n, dtype=np.float64)
+    y = (2 * i + 1 - n) / n
+    r = np.sqrt(1.0 - y * y)
+    phi = i * GOLDEN_INC
+    return np.stack([np.cos(phi) * r, y, np.sin(phi) * r], axis=1)
+
+
+def spiral_api_checks(ctx):
+    """Two overlapping spheres through the public API against the DOCUMENTED point set (golden spiral computed here in
+    float64, independent of the repository's generator): the number of buried points must be the ideal count exactly,
+    up to the points that lie within a guard band of the neighbour's surface.  Along +-y the count only depends on the
+    y strata (guard 1e-5 nm); in other directions the float32 azimuth adds up to ~1e-4 rad (guard 1e-4 nm)."""
+    rng = ctx.rng
+    tbl = get_table()
+    ce = ctx.notes.setdefault("coverage_extra", {})
+    # the shim's points against the ideal ones (evidence; the Coq obligation shim_points_are_golden_spiral is the check)
+    try:
+        pts = sphere_points(ctx)
+        ce["shim_points_max_abs_deviation_from_ideal_spiral"] = {str(n): float(np.abs(pts[n][0] - ideal_spiral(n)).max()) for n in sorted(pts)}
+    except Exception as e:
+        ce["shim_points_max_abs_deviation_from_ideal_spiral"] = "shim unavailable: %s" % e
+    groups, meta = [], []
+    quick = ctx.tier == "quick"
+    dirs = [("+y", [0, 1, 0]), ("-y", [0, -1, 0]), ("+x", [1, 0, 0]), ("-x", [-1, 0, 0]), ("+z", [0, 0, 1]), ("-z", [0, 0, -1])]
+    for rep in range(2 if quick else 12):
+        for nsp in (960, 96, 60, 7):
+            for dname, u in dirs + [("rand", None)]:
+                e1 = rng.choice(["C", "N", "O", "S"])
+                probe = rng.choice([0.14, 0.14, 0.0, 0.2])
+                ra = float(tbl[e1]) + probe
+                rb = ra                                     # same element: d = 2 ra t puts the cap threshold at cos = t
+                if dname in ("+y", "-y"):
+                    # threshold a quarter stratum below / above an ideal y: every point is >= 1/(4n) away from it
+                    k = rng.randrange(nsp // 2 + 1, nsp) if nsp > 2 else nsp - 1
+                    yk = (2 * k + 1 - nsp) / nsp
+                    t = yk + rng.choice([-1, 1]) / (2.0 * nsp) * 0.5
+                    if not (0.05 < t < 0.98):
+                        t = yk - 0.25 / nsp if yk > 0.3 else 0.5
+                else:
+                    t = rng.uniform(0.1, 0.9)
+                d = 2 * ra * t
+                if d < 0.03:
+                    continue
+                uu = u if u is not None else _rand_dir(rng)
+                c = [rng.uniform(-1, 1) for _ in range(3)]
+                g = {"kind": "spiral" + dname, "elems": [e1, e1], "resid": [0, 0], "nres": 1, "grid": GRID,
+                     "xyz": [[[_grid(c[k]) for k in range(3)], [_grid(c[k] + d * uu[k]) for k in range(3)]]],
+                     "probe": probe, "nsp": nsp, "change": None, "sel": None}
+                groups.append(g)
+                meta.append((dname, ra, rb))
+    payload = []
+    for g in groups:
+        c = {k: g[k] for k in ("elems", "resid", "nres", "xyz", "grid", "probe", "nsp", "change", "sel")}
+        c["mode"] = "atom"
+        payload.append(c)
+    out = ctx.run_impl("sasa_impl.py", {"cases": payload}, env={"OMP_NUM_THREADS": "1"})["out"]
+    n_exact = n_slack = 0
+    for g, (dname, ra, rb), o in zip(groups, meta, out):
+        n = g["nsp"]
+        x = (np.array(g["xyz"][0], dtype=np.float64) / 2 ** GRID).astype(np.float32).astype(np.float64)
+        P = ideal_spiral(n)
+        guard = GUARD if dname in ("+y", "-y") else GUARD_DIR
+        const = 4.0 * math.pi / n
+        for i, j in ((0, 1), (1, 0)):
+            ri, rj = (ra, rb) if i == 0 else (rb, ra)
+            dist = np.sqrt(((x[i][None, :] + ri * P - x[j][None, :]) ** 2).sum(-1)) - rj
+            sure_in = int((dist < -guard).sum())
+            amb = int((np.abs(dist) <= guard).sum())
+            got = (n * const * ri * ri - o["rows"][0][i]) / (const * ri * ri) if "rows" in o else None
+            ctx.count(case_of(g, "atom", "1"), nontrivial=sure_in > 0, bucket="golden-spiral/%s/nsp=%d" % (dname, n))
+            if amb == 0:
+                n_exact += 1
+            else:
+                n_slack += 1
+            if got is None or not (sure_in - 0.01 <= got <= sure_in + amb + 0.01) or abs(got - round(got)) > 0.01:
+                ctx.fail("shrake_rupley: the number of buried sphere points of two overlapping spheres is not the count on the "
+                         "documented golden-spiral point set", case_of(g, "atom", "1"),
+                         observed={"atom": i, "buried_points": got, "area": o.get("rows", [[None, None]])[0][i] if "rows" in o else o},
+                         expected={"buried_points_min": sure_in, "buried_points_max": sure_in + amb, "direction": dname},
+                         tags={"kind": "golden_spiral", "direction": dname})
+    ce["golden_spiral_api_checks(exact; with guard-band slack)"] = [n_exact, n_slack]
+
+
+# ------------------------------------------------------------------------------------------ the Python layer of sasa.py
+DESC_SELFORM = ("shrake_rupley: atom_indices given as negative indices or as a boolean mask are interpreted in two different ways "
+                "(selection mask by `ii in atom_indices`, -1 overlay by numpy indexing): a wrong value is returned silently")
+
+
+def python_layer_checks(ctx):
+    """Argument handling of sasa.py that the integer model does not represent: the form of atom_indices (list, tuple,
+    range, ndarray, duplicates, negative, boolean mask), invalid mode strings, get_mapping, integer-like n_sphere_points.
+    Expected values are other calls of the same function (bitwise) or the documented error."""
+    rng = ctx.rng
+    n = rng.randint(4, 9)
+    pos = gen_positions(rng, "chain", n)
+    n = len(pos)
+    nres = rng.randint(2, max(2, n // 2))
+    resid = sorted(list(range(nres)) + [rng.randrange(nres) for _ in range(n - nres)])
+    base = {"elems": [rng.choice(COMMON) for _ in range(n)], "resid": resid, "nres": nres, "grid": GRID,
+            "xyz": [[[_grid(v) for v in p] for p in pos]], "probe": 0.14, "nsp": rng.choice([60, 96]), "change": None}
+    sel = sorted(rng.sample(range(n), rng.randint(1, n - 1)))
+    cases, tags = [], []
+
+    def add(tag, **kw):
+        c = dict(base, mode=kw.pop("mode", "atom"), sel=kw.pop("sel", None))
+        c.update(kw)
+        cases.append(c)
+        tags.append(tag)
+    add(("full", "atom"), mode="atom", sel=None)
+    for mode in ("atom", "residue"):
+        add(("ref", mode), mode=mode, sel=sel)
+        add(("form", mode, "ndarray"), mode=mode, sel=sel, sel_form="ndarray")
+        add(("form", mode, "range-like"), mode=mode, sel=sel, sel_form="int64")
+        add(("form", mode, "duplicates"), mode=mode, sel=sel + sel[:1] + sel)
+        add(("form", mode, "reversed"), mode=mode, sel=sel[::-1])
+        add(("neg", mode), mode=mode, sel=[i - n for i in sel])
+        add(("bool", mode), mode=mode, sel=sel, sel_form="bool")
+        add(("boolarr", mode), mode=mode, sel=sel, sel_form="boolarray")
+        add(("tuple", mode), mode=mode, sel=sel, sel_form="tuple")
+        add(("mapping", mode), mode=mode, sel=sel, get_mapping=True)
+        add(("nsp-float", mode), mode=mode, sel=sel, nsp=float(base["nsp"]))
+    for bad in ("Atom", "residues", "", "ATOM", None, 0):
+        add(("badmode", repr(bad)), mode=bad)
+    out = ctx.run_impl("sasa_impl.py", {"cases": cases}, env={"OMP_NUM_THREADS": "1"})["out"]
+    by = dict(zip(tags, zip(cases, out)))
+    n_ok = 0
+    for tag, (c, o) in by.items():
+        kind = tag[0]
+        case = dict(c, kind="python-layer/" + kind, threads="1")
+        ctx.count(case, nontrivial=True, bucket="python-layer/%s" % kind)
+        if kind == "badmode":
+            if o.get("err") != "ValueError":
+                ctx.fail("shrake_rupley: a mode other than 'atom'/'residue' is not refused with ValueError", case, observed=o,
+                         expected="ValueError", tags={"kind": "badmode"})
+            else:
+                n_ok += 1
+            continue
+        if kind in ("ref", "full"):
+            continue
+        ref = by[("ref", tag[1])][1]
+        if kind in ("form", "nsp-float"):
+            if o.get("rows") != ref.get("rows"):
+                ctx.fail("shrake_rupley: the result depends on the container type / order / multiplicity of atom_indices "
+                         "(or on n_sphere_points being passed as a float)", case, observed=o, expected=ref, tags={"kind": "selform", "form": tag[-1]})
+            else:
+                n_ok += 1
+        elif kind == "mapping":
+            want = list(range(n)) if tag[1] == "atom" else resid
+            if o.get("rows") != ref.get("rows") or o.get("mapping") != want:
+                ctx.fail("shrake_rupley(get_mapping=True) does not return the same areas plus the atom -> column mapping", case,
+                         observed=o, expected={"rows": ref.get("rows"), "mapping": want}, tags={"kind": "get_mapping"})
+            else:
+                n_ok += 1
+        else:
+            # negative indices / boolean masks / tuples: either the numpy meaning (same atoms as `sel`) or a refusal
+            if "err" in o and o["err"] in ("IndexError", "ValueError", "TypeError"):
+                n_ok += 1
+            elif o.get("rows") == ref.get("rows"):
+                n_ok += 1
+            else:
+                full = by[("full", "atom")][1].get("rows")
+                explained = as_found_selform(ctx, c, "neg" if kind == "neg" else "bool", n, tag[1], o, full)
+                ctx.fail(DESC_SELFORM, case, observed=o, expected={"same as atom_indices=%s" % sel: ref.get("rows"), "or": "IndexError"},
+                         tags={"kind": "selform", "form": kind, "explained_by": "two_readings_of_atom_indices" if explained else None})
+    ctx.notes.setdefault("coverage_extra", {})["python_layer_checks_passed"] = n_ok
+
+
+def as_found_selform(ctx, c, kind, n, mode, o, full_rows):
+    """Does the as-found reading of atom_indices (mask = [ii in atom_indices], overlay = numpy indexing) explain the
+    output?  (1) from the implementation's own all-atoms areas with float32 arithmetic (harness arithmetic);
+    (2) for negative integers also against the Gallina variant MD.Sasa.Model.shrake_rupley_raw_cur inside coqc."""
+    raw = c["sel"]
+    if kind == "neg":
+        mask, overlay = set(), {i + n for i in raw}
+    else:
+        bools = [i in set(raw) for i in range(n)]
+        mask = {v for v in (0, 1) if ((v == 1) in bools) and v < n}
+        overlay = {i for i, b_ in enumerate(bools) if b_}
+    mapping, ng = groups_of(c, mode)
+    if "rows" not in o or full_rows is None:
+        return False
+    for row, frow in zip(o["rows"], full_rows):
+        want = np.full(ng, -1.0, dtype=np.float32)
+        for j in overlay:
+            want[mapping[j]] = 0.0
+        for j in sorted(mask):
+            want[mapping[j]] = np.float32(want[mapping[j]] + np.float32(frow[j]))
+        if any(abs(float(w) - v) > 2 * EPS * abs(float(w)) + 1e-9 for w, v in zip(want, row)):
+            return False
+    if kind == "neg":
+        pts = sphere_points(ctx)
+        g = dict(c, sel=sorted(mask), kind="python-layer/neg")
+        an = analyse(g, pts[c["nsp"]][0])
+        exp = coq_expected(intervals(g, mode, o["rows"], an, c["nsp"]))
+        call = coq_call(dict(c, sel=None), mode)
+        expr = "result_ok (shrake_rupley_raw_cur (sched_serial 1) %s (RawInts %s)) %s" % (call, clist([cz(i) for i in raw]), exp)
+        rc, out = ctx.coq_eval(["MD.Sched.ParFor", "MD.Sasa.Model", "MD.Gen.SasaTables"], expr, prelude=coq_prelude(pts, {c["nsp"]}))
+        ce = ctx.notes.setdefault("coverage_extra", {})
+        ce["as_found_atom_indices_model_evaluations"] = ce.get("as_found_atom_indices_model_evaluations", 0) + 1
+        if rc != 0 or not re.search(r"=\s*true", out):
+            return False
+    return True
+
+
+
+# ------------------------------------------------------------------------------------------ histories on one Topology object
+DESC_HISTORY = ("shrake_rupley: a call made after other calls / after an in-place edit of the topology on the same objects does not "
+                "equal the independent evaluation of that call (something is remembered from an earlier call)")
+
+
+def gen_history(rng):
+    """One history: a small system, then calls interleaved with in-place edits of the SAME Topology object
+    (element change, atom moved to another residue, rename, atom added / deleted) and with arguments that vary from call
+    to call (change_radii, probe, n_sphere_points, mode, atom_indices, a slice / a new Trajectory sharing the topology).
+    Returns (case for sasa_impl, [state of the system at every call step])."""
+    n = rng.randint(2, 6)
+    kind = rng.choice(["isolated", "chain", "cluster"])
+    pos = gen_positions(rng, kind, n)
+    n = len(pos)
+    nres = rng.randint(1, max(1, min(n, 3)))
+    resid = sorted(list(range(nres)) + [rng.randrange(nres) for _ in range(n - nres)])
+    elems = [rng.choice(COMMON) for _ in range(n)]
+    nfr = rng.choice([1, 1, 2])
+    xyz = [[[_grid(p[k] + (0.01 * f if k == 0 else 0.0)) for k in range(3)] for p in pos] for f in range(nfr)]
+    state = {"elems": list(elems), "resid": list(resid), "nres": nres, "xyz": [[list(a) for a in fr] for fr in xyz]}
+    case = {"kind": "history", "elems": list(elems), "resid": list(resid), "nres": nres, "xyz": xyz, "grid": GRID, "steps": []}
+    states = []
+
+    def call():
+        m = len(state["elems"])
+        sel = None if rng.random() < 0.6 else sorted(rng.sample(range(m), rng.randint(1, m)))
+        change = None
+        if rng.random() < 0.4:
+            change = {rng.choice(sorted(set(state["elems"]))): round(rng.uniform(0.05, 0.3), 3)}
+        st = {"op": "call", "probe": rng.choice([0.14, 0.14, 0.0, 0.2]), "nsp": rng.choice([7, 60, 96]), "mode": rng.choice(["atom", "residue"]),
+              "change": change, "sel": sel, "view": rng.choice(["traj", "traj", "slice_shared", "new_traj"])}
+        case["steps"].append(st)
+        states.append({"elems": list(state["elems"]), "resid": list(state["resid"]), "nres": state["nres"],
+                       "xyz": [[list(a) for a in fr] for fr in state["xyz"]], "grid": GRID,
+                       "probe": st["probe"], "nsp": st["nsp"], "change": change, "sel": sel, "mode": st["mode"], "kind": "history-call"})
+
+    call()
+    for _ in range(rng.randint(2, 4)):
+        m = len(state["elems"])
+        op = rng.choice(["set_element", "set_element", "move_atom", "rename", "add_atom", "delete_atom", "none"])
+        if op == "set_element":
+            i = rng.randrange(m)
+            sym = rng.choice([e for e in COMMON + ["Cl", "Na", "Fe"] if e != state["elems"][i]])
+            case["steps"].append({"op": op, "atom": i, "sym": sym})
+            state["elems"][i] = sym
+        elif op == "move_atom" and state["nres"] >= 2:
+            i = rng.randrange(m)
+            r = rng.choice([q for q in range(state["nres"]) if q != state["resid"][i]])
+            case["steps"].append({"op": op, "atom": i, "res": r})
+            state["resid"][i] = r
+        elif op == "rename":
+            case["steps"].append({"op": op, "atom": rng.randrange(m), "name": "ZZ%d" % rng.randrange(100)})
+        elif op == "add_atom" and m < 8:
+            sym = rng.choice(COMMON)
+            r = rng.randrange(state["nres"])
+            far = [[_grid(3.0 + 0.4 * m), _grid(-3.0 + 0.01 * f), _grid(3.0)] for f in range(len(state["xyz"]))]
+            if rng.random() < 0.5:                       # next to atom 0 instead of far away
+                far = [[state["xyz"][f][0][0] + _grid(0.17), state["xyz"][f][0][1] + _grid(0.11), state["xyz"][f][0][2] + _grid(0.07)]
+                       for f in range(len(state["xyz"]))]
+            case["steps"].append({"op": op, "sym": sym, "res": r, "xyz": far})
+            state["elems"].append(sym)
+            state["resid"].append(r)
+            for f, fr in enumerate(state["xyz"]):
+                fr.append(list(far[f]))
+        elif op == "delete_atom" and m >= 3:
+            i = rng.randrange(m)
+            case["steps"].append({"op": op, "atom": i})
+            del state["elems"][i]
+            del state["resid"][i]
+            for fr in state["xyz"]:
+                del fr[i]
+        call()
+        if rng.random() < 0.4:
+            call()
+    return case, states
+
+
+def run_histories(ctx, hist):
+    """hist: [(case, states)].  Every call of a history must equal (a) the same call on freshly built objects in another
+    process, bit for bit, and (b) the independent float64 evaluation on the documented point set."""
+    pts = sphere_points(ctx)
+    out = ctx.run_impl("sasa_impl.py", {"cases": [c for c, _s in hist]}, env={"OMP_NUM_THREADS": "1"})["out"]
+    fresh_cases = []
+    for _c, states in hist:
+        for st in states:
+            fresh_cases.append({k: st[k] for k in ("elems", "resid", "nres", "xyz", "grid", "probe", "nsp", "change", "sel", "mode")})
+    fresh = ctx.run_impl("sasa_impl.py", {"cases": fresh_cases}, env={"OMP_NUM_THREADS": "1"})["out"]
+    k = 0
+    n_calls = n_edits = 0
+    for (case, states), o in zip(hist, out):
+        n_edits += sum(1 for st in case["steps"] if st["op"] != "call")
+        for ci, (st, got) in enumerate(zip(states, o["calls"])):
+            fr = fresh[k]
+            k += 1
+            n_calls += 1
+            ctx.count(dict(case, call_index=ci, threads="1"), nontrivial=ci > 0, bucket="history/call%d" % min(ci, 3))
+            bad = None
+            if ("rows" in got) != ("rows" in fr) or got.get("rows") != fr.get("rows") or got.get("err") != fr.get("err"):
+                bad = ("differs from the same call on freshly built objects", fr)
+            elif "rows" in got and not min_dist_ok(st["xyz"]):
+                pass
+            elif "rows" in got:
+                g = dict(st)
+                an = analyse(g, pts[st["nsp"]][0])
+                v = oracle_one(g, st["mode"], got, an)
+                if v is not None:
+                    bad = (v[0], v[1])
+            if bad:
+                ctx.fail(DESC_HISTORY, dict(case, call_index=ci, threads="1"), observed=got,
+                         expected={"what": bad[0], "value": bad[1], "state_at_call": {"elems": st["elems"], "resid": st["resid"]}},
+                         tags={"kind": "history", "call_index": ci})
+                break
+    ce = ctx.notes.setdefault("coverage_extra", {})
+    ce["history_calls_on_shared_topology"] = ce.get("history_calls_on_shared_topology", 0) + n_calls
+    ce["history_inplace_edits"] = ce.get("history_inplace_edits", 0) + n_edits
+
+
+def history_checks(ctx):
+    rng = ctx.rng
+    hist = []
+    # the documented case first: an element corrected in place between two calls on the same trajectory
+    base = {"kind": "history", "elems": ["N", "Ca", "O"], "resid": [0, 1, 2], "nres": 3, "grid": GRID,
+            "xyz": [[[0, 0, 0], [_grid(3.0), 0, 0], [0, _grid(3.0), 0]]],
+            "steps": [{"op": "call", "probe": 0.14, "nsp": 96, "mode": "atom", "change": None, "sel": None, "view": "traj"},
+                      {"op": "set_element", "atom": 1, "sym": "C"},
+                      {"op": "call", "probe": 0.14, "nsp": 96, "mode": "atom", "change": None, "sel": None, "view": "traj"},
+                      {"op": "call", "probe": 0.14, "nsp": 96, "mode": "residue", "change": {"C": 0.2}, "sel": [1], "view": "slice_shared"}]}
+    sts = []
+    el = ["N", "Ca", "O"]
+    for st in base["steps"]:
+        if st["op"] == "set_element":
+            el = ["N", "C", "O"]
+        if st["op"] == "call":
+            sts.append({"elems": list(el), "resid": [0, 1, 2], "nres": 3, "xyz": base["xyz"], "grid": GRID, "probe": st["probe"],
+                        "nsp": st["nsp"], "change": st["change"], "sel": st["sel"], "mode": st["mode"], "kind": "history-call"})
+    hist.append((base, sts))
+    for _ in range(10 if ctx.tier == "quick" else 120):
+        hist.append(gen_history(rng))
+    run_histories(ctx, hist)
+
+
 # ------------------------------------------------------------------------------------------ relations on the implementation
 def sentinel(ctx, groups, res, analyses):
     """The statements of the property checked directly on md.shrake_rupley's output (no model)."""
@@ -867,6 +1254,9 @@ def correspond(ctx):
     sentinel(ctx, groups, res, analyses)
     subset_and_frame_checks(ctx, groups, res)
     two_sphere_checks(ctx)
+    spiral_api_checks(ctx)
+    python_layer_checks(ctx)
+    history_checks(ctx)
 
 
 def search(ctx, broken):
@@ -877,6 +1267,32 @@ def search(ctx, broken):
 
 def replay(ctx, rec):
     c = rec["case"]
+    if c.get("kind") == "history":
+        case = {k: c[k] for k in ("kind", "elems", "resid", "nres", "xyz", "grid", "steps")}
+        # rebuild the state at every call from the recorded steps
+        state = {"elems": list(c["elems"]), "resid": list(c["resid"]), "nres": c["nres"], "xyz": [[list(a) for a in fr] for fr in c["xyz"]]}
+        states = []
+        for st in c["steps"]:
+            if st["op"] == "call":
+                states.append({"elems": list(state["elems"]), "resid": list(state["resid"]), "nres": state["nres"],
+                               "xyz": [[list(a) for a in fr] for fr in state["xyz"]], "grid": GRID, "probe": st["probe"], "nsp": st["nsp"],
+                               "change": st["change"], "sel": st["sel"], "mode": st["mode"], "kind": "history-call"})
+            elif st["op"] == "set_element":
+                state["elems"][st["atom"]] = st["sym"]
+            elif st["op"] == "move_atom":
+                state["resid"][st["atom"]] = st["res"]
+            elif st["op"] == "add_atom":
+                state["elems"].append(st["sym"])
+                state["resid"].append(st["res"])
+                for f, fr in enumerate(state["xyz"]):
+                    fr.append(list(st["xyz"][f]))
+            elif st["op"] == "delete_atom":
+                del state["elems"][st["atom"]]
+                del state["resid"][st["atom"]]
+                for fr in state["xyz"]:
+                    del fr[st["atom"]]
+        run_histories(ctx, [(case, states)])
+        return
     g = {k: c[k] for k in ("kind", "elems", "resid", "nres", "xyz", "grid", "probe", "nsp", "change", "sel")}
     r = run_groups(ctx, [g])
     if r is None:
